@@ -21,6 +21,8 @@ func TestVerif_C12_Storage(t *testing.T) {
 	r := kit.NewResult(t, "c12-storage", seed,
 		"generated worlds (<=6 namespaces on <=3 levels, some with their own shamir seal; sibling, multi-segment and equally named mounts of the recording backend / kv / auth type; remounts inside and across namespaces, unmount + re-use of the path, seal/unseal cycles) serving a request mix of hostile storage calls made by a backend on its req.Storage (.., absolute, //, encoded, other mounts' uuids and real keys, core keys, long), hostile data paths, kv, login, cubbyhole and foreign-token requests in every namespace spelling (header / path / split); every physical operation of a request is classified against the storage prefixes read from the running router and every response is scanned for data or names written through another mount; a request is non-trivial when its client-chosen key resolves outside the mount prefix, when it is served while a namespace is sealed, when it uses a token of another namespace, or when it follows a remount / path re-use")
 	defer r.Write(t)
+	r.Note("observation outside C12: when the unseal of a namespace fails in post-unseal (e.g. because of the mount conflict above) the rollback re-seals it through SealNamespace with the root-namespace active context, which stores the namespace's record in the root namespace's store; a later start of the core then fails with 'error loading initial namespaces: can't insert namespace with missing parent'; worlds in which a namespace unseal failed are therefore not restarted")
+	r.Note("observation outside C12: unsealNamespace reloads only the direct children of the unsealed namespace (it passes the namespace-scoped view as the barrier to loadNamespacesRecursive), deeper namespaces stay unknown to the core until a full reload")
 	r.Note("observation outside C12: a remount into another namespace (Core.moveStorage) does not terminate, holding mountsLock, when the mount's storage holds a key with an empty path segment (a//b, /a, a/), because listed names are re-joined with path.Join; the workload therefore moves only mounts that never stored such a key across namespaces")
 	topos := kit.N(10, 160)
 	reqs := kit.N(800, 4000)
@@ -528,9 +530,18 @@ func (s *c12StorageRun) endSeal() {
 		// then cannot be unsealed ("failed to setup mount table") until that mount is
 		// gone. The namespace simply stays sealed in the model and is retried later.
 		s.r.Count("namespace_unseal_failed", 1)
-		s.r.Note("[%s] unsealing %q failed and is retried later (last step: %s)", s.caseID, S.Path, s.steps[len(s.steps)-1])
-		s.unsealAt = s.iter + 40
-		return
+		if s.r.Get("namespace_unseal_failed") <= 2 {
+			s.r.Note("[%s] unsealing %q failed (%s); the parent's mounts inside its path are removed and the unseal is retried", s.caseID, S.Path, c12Short(s.steps[len(s.steps)-1]))
+		}
+		for _, m := range s.mounts {
+			if !m.Dead && m.Shadow != nil && m.Shadow.under(S) && !m.NS.effSealed() {
+				s.unmount(m)
+			}
+		}
+		if !s.unsealTree(S) {
+			s.unsealAt = s.iter + 40
+			return
+		}
 	}
 	s.sealedNS = nil
 	s.sync()
@@ -664,7 +675,7 @@ func (s *c12StorageRun) mutate() {
 		if s.sealNS(S) {
 			s.sealedNS = S
 			s.unsealAt = s.iter + 25 + s.rng.Intn(25)
-			if s.rng.Chance(1, 2) && !S.Parent.effSealed() {
+			if s.rng.Chance(1, 3) && !S.Parent.effSealed() {
 				// hostile topology: the parent mounts inside the path of the sealed namespace
 				s.r.Count("topology_conflict_attempts", 1)
 				p := S.Name + "/" + []string{"shadow/", "m/", "eng/"}[s.rng.Intn(3)]
